@@ -81,9 +81,9 @@ func c16KeepSet(c *Ctx) {
 				// path it was found at, behind a predicate over that path that ties the name to a
 				// chunk id and to the place the store keeps that chunk (decided by C16.tmp-files)
 				if strings.HasSuffix(callee(rm), "sftp.Client).Remove") && len(rm.Common().Args) > 1 {
+					// (inside a callback that a walk helper hands the path to, it is a parameter)
 					isWalked := func(v ssa.Value) bool {
-						return hasOrigin(v, func(o string) bool { return strings.Contains(o, "Walker).Path#0") }) &&
-							onlyOrigins(v, func(o string) bool { return strings.Contains(o, "Walker).Path#0") || strings.HasPrefix(o, "param:") })
+						return onlyOrigins(v, func(o string) bool { return strings.Contains(o, "Walker).Path#0") || strings.HasPrefix(o, "param:") })
 					}
 					if isWalked(rm.Common().Args[1]) {
 						isTmp, _ := guarded(f, rm.(ssa.Instruction), func(iff *ssa.If) (bool, bool) {
